@@ -63,6 +63,7 @@ class StartupRun:
         self.prog = case["prog"]
         self.trace: list[dict[str, Any]] = []
         self.expected_events: list[tuple[Any, ...]] = []
+        self.fac_calls: dict[int, int] = {}
         self.classes: dict[int, type] = {}
 
     def log(self, *label: Any) -> None:
@@ -134,8 +135,11 @@ class StartupRun:
                     desc = f"fd{a['fid']}" if a["fid"] % 3 == 0 else None
                     tys = [a["ty"]] + ([a["ty2"]] if "ty2" in a else [])
                     if a.get("slow"):
-                        async def slow_factory(fid: int = a["fid"], d: int = a["slow"]) -> Gen:
+                        async def slow_factory(fid: int = a["fid"], d: int = a["slow"], ff: int = a.get("failFirst", 0)) -> Gen:
+                            n = self.fac_calls[fid] = self.fac_calls.get(fid, 0) + 1
                             await anyio.sleep(d * TICK)       # an asynchronous factory that takes its time
+                            if n <= ff:
+                                raise EXN[0]()                # … and whose first call(s) fail in the end
                             return Gen(fid)
 
                         add_resource_factory(slow_factory, a["name"], types=[TYPES[t] for t in tys], description=desc)
@@ -163,6 +167,23 @@ class StartupRun:
                 elif k == "awaitOpt":
                     v = await get_resource(TYPES[a["ty"]], a["name"], optional=True)
                     self.log("gotOpt", i, a["ty"], a["name"], val_str(v))
+                elif k == "awaitGiveUp":
+                    # a lookup with a time limit of its own, which strikes while the factory is still running
+                    with anyio.move_on_after(a["g"] * TICK) as scope:
+                        v = await get_resource(TYPES[a["ty"]], a["name"])
+                    if not scope.cancelled_caught:
+                        self.probe_failed(i, f"a lookup of ({a['ty']}, {a['name']!r}) limited to {a['g']} ticks returned "
+                                             f"{val_str(v)} although its factory takes longer", "C05,C04")
+                    self.log("tick", i)
+                elif k == "awaitCatch":
+                    # a lookup whose factory fails (this first time); the component deals with the error
+                    try:
+                        v = await get_resource(TYPES[a["ty"]], a["name"])
+                        self.probe_failed(i, f"the first call of the failing factory behind ({a['ty']}, {a['name']!r}) "
+                                             f"produced {val_str(v)}", "C05,C04")
+                    except EXN[0]:
+                        pass
+                    self.log("tick", i)
                 elif k == "tick":
                     if a["d"]:
                         await anyio.sleep(a["d"] * TICK)
@@ -366,7 +387,7 @@ def run_startup_case(case: dict[str, Any]) -> dict[str, Any]:
 # ------------------------------------------------------------------------------------ reference
 
 
-def expand_prog(prog: list[dict[str, Any]]) -> list[dict[str, Any]]:
+def expand_prog(prog: list[dict[str, Any]], for_model: bool = False) -> list[dict[str, Any]]:
     """`publish` with a teardown callback = `publish` followed by `regTd` inside one atomic section."""
     out = []
     for spec in prog:
@@ -381,6 +402,11 @@ def expand_prog(prog: list[dict[str, Any]]) -> list[dict[str, Any]]:
                         # one call registering the factory under two types
                         base = {k: v for k, v in a.items() if k != "ty2"}
                         acts += [base, {**base, "ty": a["ty2"]}]
+                    elif for_model and a["a"] == "tick" and not isinstance(a["d"], int):
+                        acts.append({**a, "d": int(a["d"]) + 1})      # half ticks: the model has whole ones only
+                    elif for_model and a["a"] in ("awaitGiveUp", "awaitCatch"):
+                        # a lookup that comes to nothing: for the start-up discipline, time passing in that component
+                        acts.append({"a": "tick", "d": 1})
                     else:
                         acts.append(a)
                 spec[ph] = acts
@@ -403,6 +429,8 @@ class RefRun:
         self.slow: dict[tuple[int, str], int] = {}          # key -> generation time of its (slow, async) factory
         self.generating: dict[tuple[int, str], anyio.Event] = {}
         self.generated: set[tuple[int, str]] = set()
+        self.fail_first: dict[tuple[int, str], int] = {}
+        self.calls: dict[tuple[int, str], int] = {}
 
     def log(self, *label: Any) -> None:
         self.times.append((tuple(label), round(anyio.current_time() / TICK, 6)))
@@ -427,6 +455,7 @@ class RefRun:
                 else:
                     if a.get("slow") and (a["ty"], name) not in self.table:
                         self.slow[(a["ty"], name)] = a["slow"]
+                        self.fail_first[(a["ty"], name)] = a.get("failFirst", 0)
                     self.publish((a["ty"], name), f"g{a['fid']}")
                     self.log("pubFac", i, a["ty"], a["name"], a["fid"])
             elif k == "await":
@@ -441,6 +470,13 @@ class RefRun:
                 if key in self.table:
                     await self.generate(key)
                 self.log("gotOpt", i, a["ty"], a["name"], self.table.get(key))
+            elif k == "awaitGiveUp":
+                with anyio.move_on_after(a["g"] * TICK):
+                    await self.generate((a["ty"], a["name"]))
+                self.log("tick", i)
+            elif k == "awaitCatch":
+                await self.generate((a["ty"], a["name"]))
+                self.log("tick", i)
             elif k == "tick":
                 if a["d"]:
                     await anyio.sleep(a["d"] * TICK)
@@ -459,15 +495,22 @@ class RefRun:
     async def generate(self, key: tuple[int, str]) -> None:
         """The first lookup of a key served by a slow asynchronous factory runs it; lookups made meanwhile
         wait for that generation."""
-        if key not in self.slow or key in self.generated:
-            return
-        if key in self.generating:
-            await self.generating[key].wait()
-            return
-        ev = self.generating[key] = anyio.Event()
-        await anyio.sleep(self.slow[key] * TICK)
-        self.generated.add(key)
-        ev.set()
+        while key in self.slow and key not in self.generated:
+            if key in self.generating:
+                await self.generating[key].wait()
+                continue        # look again: that generation may have come to nothing
+            ev = self.generating[key] = anyio.Event()
+            n = self.calls[key] = self.calls.get(key, 0) + 1
+            try:
+                await anyio.sleep(self.slow[key] * TICK)
+                if n > self.fail_first.get(key, 0):
+                    self.generated.add(key)
+            finally:
+                # (also when the lookup running the factory is cancelled)
+                del self.generating[key]
+                ev.set()
+            if key not in self.generated:
+                return          # the factory failed: this lookup ends with its error
 
     async def comp(self, i: int) -> None:
         spec = self.prog[i]
